@@ -146,6 +146,11 @@ func (vt *Model) ich(ps int) {
 	if ps == 0 {
 		ps = 1
 	}
+	if ps > vt.width() {
+		// More than a whole line is a whole line (and col+ps cannot
+		// overflow)
+		ps = vt.width()
+	}
 	col := vt.cursor.col
 	row := vt.cursor.row
 	line := vt.activeScreen[row]
@@ -496,6 +501,11 @@ func (vt *Model) dch(ps int) {
 	vt.lastCol = false
 	if ps == 0 {
 		ps = 1
+	}
+	if ps > vt.width() {
+		// More than a whole line is a whole line (and col+ps cannot
+		// overflow)
+		ps = vt.width()
 	}
 	row := vt.cursor.row
 	for col := vt.cursor.col; col <= vt.margin.right; col += 1 {
